@@ -175,13 +175,13 @@ def run(ctx):
                 ctx.report(cls, "%s build: `%s` yields %s, the specification says %s" % (build, " ".join(c), got, spec if spec != "UNDEF" else "failure (undefined / not representable)"),
                            {"case": c, "build": build, "impl": got, "spec": spec, "model": m,
                             "how": "echo '%s' > c; .cache/htarget/num/%s/num_harness c out; cat out" % (" ".join(c), build)})
-            if got != m["fixed"]:
+            if got != m[build]:
                 dis += 1
                 if good:
                     hint = ""
-                    if got == m["trap" if build == "debug" else "wrap"]:
-                        hint = " (the implementation behaves like the ORIGINAL code model: is fixes/num-checked-arithmetic.diff applied?)"
-                    ctx.report("correspondence:%s:%s" % (c[0], build), "impl-model (NumImpl.binop_eval Fixed) and the %s build disagree on `%s`: impl=%s model=%s%s" % (build, " ".join(c), got, m["fixed"], hint),
+                    if nc.MODEL_VERSION == "fixed" and got == m["trap" if build == "debug" else "wrap"]:
+                        hint = " (the implementation behaves like the ORIGINAL code model: are the fixes/num-*.diff applied?)"
+                    ctx.report("correspondence:%s:%s" % (c[0], build), "impl-model (NumImpl.binop_eval, %s) and the %s build disagree on `%s`: impl=%s model=%s%s" % (nc.MODEL_VERSION, build, " ".join(c), got, m[build], hint),
                                {"case": c, "build": build, "impl": got, "model": m, "correspondence": "T4 num (Num/NumImpl.v vs bytecode/src/variables/ops*)"},
                                found_input=False)
     # CLI
@@ -206,9 +206,9 @@ def run(ctx):
                 ctx.report(cls, "%s `mscript run`: `%s` prints %s, the specification says %s" % (bname, " ".join(c), got, spec),
                            {"case": c, "build": bname, "program": cli_program(c), "observed": got, "spec": spec,
                             "how": "MSCRIPT_VERIF_TYPED_PRINT=1 mscript run m.ms -q"})
-            elif got != m["fixed"]:
+            elif got != m[bname]:
                 dis += 1
-                ctx.report("correspondence:cli:%s:%s" % (c[0], bname), "impl-model and `mscript run` (%s) disagree on `%s`: observed=%s model=%s" % (bname, " ".join(c), got, m["fixed"]),
+                ctx.report("correspondence:cli:%s:%s" % (c[0], bname), "impl-model and `mscript run` (%s) disagree on `%s`: observed=%s model=%s" % (bname, " ".join(c), got, m[bname]),
                            {"case": c, "program": cli_program(c), "observed": got, "model": m}, found_input=False)
     ctx.cov["evaluations"] = 2 * len(cases) + cli_cmp
     ctx.cov["distinct_nontrivial"] = len(nontrivial)
@@ -220,13 +220,14 @@ def run(ctx):
     ctx.cov["rule"] = ("evaluations = harness cases x 2 builds (debug, release) + CLI cases compared; non-trivial = distinct case with mixed operand "
                        "kinds, or an undefined / unrepresentable result, or a float arithmetic result")
     ctx.cov["model_impl_disagreements"] = dis
+    ctx.cov["model_version"] = nc.MODEL_VERSION
     ctx.cov["spec_failures"] = spec_fail
     ctx.cov["oracle_disagreements"] = oracle_dis
     ctx.cov["cli_cases_compared"] = cli_cmp
     ctx.cov["cli_cases_statically_rejected"] = cli_reject
     ctx.cov["traces_validated_against_impl"] = 2 * len(cases) + cli_cmp
     for j in (3, len(cases) // 3, len(cases) // 2, len(cases) - 5):
-        ctx.sample({"case": " ".join(cases[j]), "debug": impl["debug"][j], "release": impl["release"][j], "model": model[j]["fixed"], "spec": model[j]["spec"]})
+        ctx.sample({"case": " ".join(cases[j]), "debug": impl["debug"][j], "release": impl["release"][j], "model": model[j]["debug"], "spec": model[j]["spec"]})
     ctx.cov["trusted_base"] = ["Coq 8.16.1 kernel (coqc; vm_compute in Examples / witness lemmas)",
                                "Flocq 4.1.0 IEEE754.BinarySingleNaN as the definition of IEEE-754 binary64 arithmetic; its library axioms as printed by Print Assumptions",
                                "F_rem (fmod on mantissa/exponent pairs) is defined by this development and proved to be the exact real fmod (C05_float_rem_is_fmod); that Rust's f64 % computes fmod is tied by the correspondence",
